@@ -122,13 +122,15 @@ pub struct GenOpts {
     /// probability (in 1/8) that a .device line is emitted
     pub device_eighths: u64,
     pub messages: bool,
+    /// many macro definitions and calls, with compound arguments
+    pub macro_heavy: bool,
     /// unique tag used in message texts so that messages identify their program
     pub msg_tag: String,
 }
 
 impl Default for GenOpts {
     fn default() -> Self {
-        GenOpts { min_blocks: 6, max_blocks: 18, fail: None, device_eighths: 4, messages: true, msg_tag: "p".into() }
+        GenOpts { min_blocks: 6, max_blocks: 18, fail: None, device_eighths: 4, messages: true, macro_heavy: false, msg_tag: "p".into() }
     }
 }
 
@@ -530,15 +532,15 @@ impl<'a> Gen<'a> {
             return self.code_block();
         }
         let n = free[0].clone();
-        let np = self.r.usize(3);
+        let np = if self.opts.macro_heavy { 2 } else { self.r.usize(3) };
         let mut l = vec![format!(".macro {}", n)];
         self.no_alias = true;
         for _ in 0..self.r.range(1, 3) {
             match (np, self.r.below(4)) {
                 (0, _) => l.push(self.instr()),
                 (_, 0) => l.push("    ldi @0, 7".to_string()),
-                (2, 1) => l.push("    subi @0, @1".to_string()),
-                (2, 2) => l.push("    cpi @0, low(@1)".to_string()),
+                (2, 1) => l.push(["    subi @0, @1", "    subi @0, @1*2", "    andi @0, @1+1"][self.r.usize(3)].to_string()),
+                (2, 2) => l.push(["    cpi @0, low(@1)", "    cpi @0, low(@1*3)", "    ldi @0, low(@1<<1)"][self.r.usize(3)].to_string()),
                 _ => l.push("    mov r2, @0".to_string()),
             }
         }
@@ -692,7 +694,8 @@ pub fn gen(r: &mut Rng, pool: &Pool, opts: &GenOpts) -> Program {
             let d = g.device_line();
             nodes.push(d);
         }
-        let n = match g.r.below(24) {
+        let pick = if opts.macro_heavy && g.r.chance(1, 2) { 18 + g.r.below(3) } else { g.r.below(24) };
+        let n = match pick {
             0..=6 => g.code_block(),
             7 | 8 => g.data_block(),
             9 | 10 => g.equ_block(),
@@ -826,6 +829,7 @@ pub fn family(r: &mut Rng, n: usize, msg_prefix: &str) -> Vec<Program> {
         if r.chance(9, 20) {
             o.fail = Some(FAIL_KINDS[r.usize(FAIL_KINDS.len())].to_string());
         }
+        o.macro_heavy = r.chance(1, 6);
         v.push(gen(r, &pool, &o));
     }
     // near-copies: a member with exactly one fact changed (a define present or absent, the value
